@@ -32,7 +32,13 @@ LEVEL_TEXT = ("Theorems (Props/C12.v) about Model/SimMachine.v, for ALL operatio
               "(inv_reachable), history independence of synthetic/misfit/gradient, independence of copies, "
               "every solve issued with the tolerance of its kind and handed the current model version (in-place and replacement updates). The three places where the code as found "
               "violates this are refuted by vm_compute witnesses (history_independence_refuted, ...), and "
-              "so is independence of copies that share a file_dir.")
+              "so is independence of copies that share a file_dir. FAULT PATHS (Model/SimFault.v): operations "
+              "during which a batch of solves (forward / back-propagation / jvec), the start of the gradient "
+              "computation (warnings as errors) or io raises are operations of the machine; for ALL histories "
+              "mixing completed and failed operations the invariant holds and synthetic/misfit/gradient are "
+              "those of a fresh simulation (history_independence_with_failed_operations), a failed jtvec "
+              "restores residual and gradient cache (failed_jtvec_restores), a failed operation changes "
+              "neither the model nor another simulation; jtvec without `finally` is refuted.")
 LEVEL_NOTE = ("The model is hand-written; it is tied to /repo by differential correspondence after every "
               "step of random histories (state tags, return values, solve traces) -- not by translation. "
               "Numerical equality 'to solver tolerance' of warm- and cold-started solves, deep-copy "
@@ -40,13 +46,21 @@ LEVEL_NOTE = ("The model is hand-written; it is tied to /repo by differential co
               "the correspondence. file_dir mode: no positive theorem is proved (gap, correspondence only); "
               "with copies sharing file_dir independence is refuted (copies_independent_file_refuted, "
               "a finding). "
-              "_dict_grid and the info dictionaries are not modelled (gridding='same').")
+              "_dict_grid and the info dictionaries are not modelled (gridding='same'). Fault paths: the "
+              "seams at which an exception is injected are the entry of emg3d._multiprocessing.process_map "
+              "(first batch of a kind), emg3d's UserWarnings as errors, and to_file into a missing directory; "
+              "an exception raised INSIDE a batch after some solves, or between two statements that have no "
+              "such seam (e.g. in fields.get_receiver while responses are stored: searcher only), is not "
+              "modelled; memory mode only; an empty _dict_bfield is identified with an absent one.")
 TECHNIQUE = "Coq proof (invariant + induction over operation lists) + differential correspondence (vm_compute)"
 DESIGN_REF = "DESIGN.md section 6 C12"
 GEN = []
 PROPS = 'Props/C12.v'
 TRUSTED = ["Model/SimMachine.v as the reading of emg3d/simulations.py (validated on every run by the "
            "step-by-step correspondence of random histories)",
+           "Model/SimFault.v as the reading of what an operation of emg3d/simulations.py leaves behind when it "
+           "raises at a seam (validated on every run by the fault-path stream: exceptions injected into the "
+           "real implementation, state compared after every step)",
            "classification of implementation values by comparison (rtol 1e-4 of the norm) with quantities "
            "of fresh simulations"]
 ASSUMES = ["survey, grid, solver options fixed during a history; gridding='same'; max_workers=1; "
@@ -67,9 +81,9 @@ class Problem:
     1 = gridding='input' with an 8x4x4 computational grid that differs from the
     4x4x4 model grid (the model is interpolated for every solve)."""
 
-    def __init__(self, case, layout):
+    def __init__(self, case, layout, interp='linear'):
         import emg3d
-        self.case, self.layout = case, layout
+        self.case, self.layout, self.interp = case, layout, interp
         self.gridding = 'input' if layout >= 2 else 'same'
         hx = np.ones(4) * 50.0
         self.grid = emg3d.TensorMesh([hx, hx, hx], (-100, -100, -100))
@@ -139,7 +153,7 @@ class Problem:
             gkw = dict(gridding='input', gridding_opts=self.cgrid)
         return emg3d.Simulation(
             survey, self.model(m), max_workers=1, **gkw,
-            receiver_interpolation='linear', verb=-1, tqdm_opts=False, file_dir=file_dir,
+            receiver_interpolation=self.interp, verb=-1, tqdm_opts=False, file_dir=file_dir,
             solver_opts=dict(tol=TOL_F, tol_gradient=TOL_G, maxit=60, verb=0, plain=True))
 
     def slots(self, sim=None):
@@ -190,12 +204,12 @@ class Problem:
 _PROBLEMS = {}
 
 
-def problem(case, layout):
-    key = (case, layout)
+def problem(case, layout, interp='linear'):
+    key = (case, layout, interp)
     if key not in _PROBLEMS:
         with warnings.catch_warnings():
             warnings.simplefilter('ignore')
-            _PROBLEMS[key] = Problem(case, layout)
+            _PROBLEMS[key] = Problem(case, layout, interp)
     return _PROBLEMS[key]
 
 
@@ -213,7 +227,40 @@ def close(a, b, rtol=RTOL):
 CW = ['computed', 'keepresults', 'all']
 DW = ['computed', 'results', 'all', 'plain']
 VIA = ['copy', 'dict', 'h5', 'npz', 'json']
-ERR = {'AttributeError': 1, 'FileNotFoundError': 2, 'OSError': 2, 'TypeError': 3}
+ERR = {'AttributeError': 1, 'FileNotFoundError': 2, 'OSError': 2, 'TypeError': 3, 'UserWarning': 7}
+
+
+class Injected(KeyboardInterrupt):
+    """Exception raised by the harness at a seam of emg3d (not an `Exception`: nothing in emg3d may
+    swallow it)."""
+
+
+# An operation with an ARMED FAULT is written name!X:
+#   !F / !B / !G  the first call of emg3d._multiprocessing.process_map for the forward ('Compute
+#                 efields') / back-propagation ('Back-propagate') / jvec ('Compute jvec') batch raises
+#                 `Injected` on entry;
+#   !W            emg3d's UserWarnings are errors during the operation (warnings.filterwarnings('error',
+#                 category=UserWarning)): with receiver_interpolation='cubic' the gradient computation
+#                 raises at its start;
+#   !io           export through a file whose directory does not exist (to_file raises in io.save after
+#                 the simulation was serialised);
+#   !R<k>         (searcher only, not modelled) the k-th call of emg3d.fields.get_receiver raises.
+# A fault that the operation never reaches does not fire; the operation then completes normally.
+FAULT_COQ = {'F': 'FBatch KF', 'B': 'FBatch KB', 'G': 'FBatch KG', 'W': 'FWarn', 'io': 'FIo'}
+FAULT_LEGEND = ("op!F / !B / !G: the first forward / back-propagation / jvec batch of solves "
+                "(emg3d._multiprocessing.process_map) raises during op; op!W: UserWarnings are errors during "
+                "op (warnings.filterwarnings('error', category=UserWarning)); export!io: to_file into a "
+                "directory that does not exist; op!R<k>: the k-th call of emg3d.fields.get_receiver raises. "
+                "The exception is caught by the caller and the simulation is used further.")
+
+
+def split_fault(name):
+    base, _, flt = name.partition('!')
+    return base, (flt or None)
+
+
+def has_fault(ops):
+    return any('!' in o[1] for o in ops)
 
 
 def op_name(op):
@@ -225,8 +272,9 @@ def op_text(op):
     return f"{name}({','.join(str(a) for a in args)})" + (f"@{k}" if k else '')
 
 
-def coq_op(op):
+def coq_op(op, triple=False):
     k, name, *a = op
+    name, flt = split_fault(name)
     t = {'compute': 'OCompute', 'misfit': 'OMisfit', 'gradient': 'OGradient'}.get(name)
     if name == 'jvec':
         t = f"OJvec {a[0]}"
@@ -244,15 +292,20 @@ def coq_op(op):
     elif name == 'setmodel':
         t = (f"OSetModel {a[0]} " + V.coq_bool(a[1] == 'all') + " "
              + V.coq_bool(len(a) > 2 and a[2] == 'replace'))
+    if triple:
+        return f"({k}%nat, {t}, {'Some (' + FAULT_COQ[flt] + ')' if flt else 'None'})"
     return f"({k}%nat, {t})"
 
 
 class World:
     """The implementation side: a list of real Simulations + solve tracing."""
 
-    def __init__(self, prob, file_mode):
+    def __init__(self, prob, file_mode, faulty=False):
         self.p = prob
         self.file_mode = file_mode
+        self.faulty = faulty         # history with armed faults: an empty _dict_bfield counts as absent
+        self.armed = None            # batch kind (0/1/2) whose first process_map call raises
+        self.fired = False
         self.tmp = tempfile.mkdtemp(prefix='c12_')
         self.file_dir = os.path.join(self.tmp, 'fd') if file_mode else None
         self.sims = [prob.make_sim(0, self.file_dir)]
@@ -274,6 +327,9 @@ class World:
 
         def pm(fun, items, max_workers, **kw):
             kind = {'Compute efields': 0, 'Back-propagate': 1, 'Compute jvec': 2}.get(kw.get('desc'), 9)
+            if self.armed is not None and kind == self.armed and not self.fired:
+                self.fired = True
+                raise Injected(f"injected: process_map({kw.get('desc')!r}) raises")
             for j, it in enumerate(items):
                 d = io.load(it, verb=0)['data'] if isinstance(it, str) else it
                 tol = d['solver_opts'].get('tol')
@@ -307,9 +363,26 @@ class World:
         """Returns the observation as the integer list of Model enc_obs."""
         import emg3d
         k, name, *a = op
+        name, flt = split_fault(name)
         self.trace = []
+        self.armed, self.fired = None, False
         if k >= len(self.sims):        # target was never created (its export raised): no-op, as in the model
             return [0, 0, 0, 0]
+        restore_gr = None
+        if flt in ('F', 'B', 'G'):
+            self.armed = 'FBG'.index(flt)
+        elif flt and flt[0] == 'R':
+            from emg3d import fields as _fields
+            restore_gr = _fields.get_receiver
+            left = [int(flt[1:] or 1)]
+
+            def gr(*args, **kwargs):
+                left[0] -= 1
+                if left[0] == 0:
+                    self.fired = True
+                    raise Injected("injected: fields.get_receiver raises")
+                return restore_gr(*args, **kwargs)
+            _fields.get_receiver = gr
         sim = self.sims[k]
         p = self.p
         sl = p.slots(sim)
@@ -317,6 +390,8 @@ class World:
         try:
             with warnings.catch_warnings():
                 warnings.simplefilter('ignore')
+                if flt == 'W':
+                    warnings.filterwarnings('error', category=UserWarning)
                 if name == 'compute':
                     self._traced(sim, sim.compute)
                 elif name == 'misfit':
@@ -357,6 +432,8 @@ class World:
                     else:
                         self.nfile += 1
                         fn = os.path.join(self.tmp, f"sim{self.nfile}.{via}")
+                        if flt == 'io':
+                            fn = os.path.join(self.tmp, 'no_such_directory', f"sim{self.nfile}.{via}")
                         sim.to_file(fn, what=what, verb=0)
                         new = emg3d.Simulation.from_file(fn, verb=0)
                     if not isinstance(new, emg3d.Simulation):
@@ -367,9 +444,17 @@ class World:
                     ret = [3, len(self.sims) - 1, 0, 0]
                 else:
                     raise ValueError(name)
+        except Injected as e:
+            ret = [4, 7, 0, 0]
+            self.last_exc = f"Injected: {e}"
         except Exception as e:                     # noqa: BLE001 - mapped to the model's error enum
             ret = [4, ERR.get(type(e).__name__, 9), 0, 0]
             self.last_exc = f"{type(e).__name__}: {str(e)[:200]}"
+        finally:
+            self.armed = None
+            if restore_gr is not None:
+                from emg3d import fields as _fields
+                _fields.get_receiver = restore_gr
         return ret + list(self.trace)
 
     def cls_model(self, mod):
@@ -450,7 +535,10 @@ class World:
                     out += self.cls_field(io.load(val, verb=0)['efield'].field, 'ef', 7)
             else:
                 out += self.cls_field(val.field, 'ef', 7)
-        out += [int(hasattr(sim, '_dict_bfield'))]
+        hb = hasattr(sim, '_dict_bfield')
+        if hb and self.faulty and all(v is None for d in sim._dict_bfield.values() for v in d.values()):
+            hb = False         # created by a `_bcompute` that raised before storing anything (Model/SimFault.v)
+        out += [int(hb)]
         syn = p.to_canon(sim, sim.data.synthetic.data)
         for i in range(p.n):
             sli = self.slot_slice(syn, i)
@@ -669,6 +757,88 @@ SUSPECTS = [
 ]
 
 
+# ---- fault paths: an operation raises mid-way, the exception is caught, the simulation is used further
+# problems of the fault stream: (case, layout, receiver_interpolation); 'cubic' makes `gradient` warn
+FAULT_COMBOS = [('isotropic', 0, 'linear'), ('VTI', 1, 'linear'), ('isotropic', 3, 'linear'),
+                ('VTI', 2, 'linear'), ('isotropic', 0, 'cubic')]
+FAULT_OPS = {'F': [('compute',), ('misfit',), ('gradient',), ('jvec', 0), ('jtvec', 1), ('get_efield', 1),
+                   ('get_hfield', 0)],
+             'B': [('gradient',), ('jtvec', 0)],
+             'G': [('jvec', 1)],
+             'W': [('gradient',), ('jtvec', 1)]}
+FAULT_PREFIX = {'F': [[], [(0, 'compute'), (0, 'clean', 'keepresults')], [(0, 'misfit'), (0, 'clean', 'keepresults')]],
+                'B': [[], [(0, 'misfit')], [(0, 'gradient')], [(0, 'misfit'), (0, 'clean', 'keepresults')]],
+                'G': [[], [(0, 'misfit')], [(0, 'compute'), (0, 'clean', 'keepresults')]],
+                'W': [[], [(0, 'misfit')], [(0, 'gradient')], [(0, 'misfit'), (0, 'clean', 'keepresults')]]}
+
+
+def fault_suspects():
+    """Deterministic enumeration: every (operation, fault class) x every prefix that decides WHERE the
+    fault fires (in the misfit part, in the back-propagation, in the per-pair recomputation loop, inside
+    jtvec's try-block, with or without a cached gradient), followed by `gradient` on the same simulation.
+    Returns [(interp, ops)]; 'W' needs the cubic problem."""
+    out = []
+    for flt in ('F', 'B', 'G', 'W'):
+        for o in FAULT_OPS[flt]:
+            for pre in FAULT_PREFIX[flt]:
+                ops = list(pre) + [(0, o[0] + '!' + flt) + tuple(o[1:]), (0, 'gradient')]
+                out.append(('cubic' if flt == 'W' else 'linear', ops))
+    # faults that never fire on these operations (the model says so as well)
+    out.append(('cubic', [(0, 'compute!W'), (0, 'jvec!W', 0), (0, 'misfit!B'), (0, 'gradient')]))
+    out.append(('cubic', [(0, 'gradient'), (0, 'jtvec!B', 0), (0, 'jtvec!W', 1), (0, 'gradient')]))
+    # to_file raises in io; the simulation and later exports are as if nothing had happened
+    for via, what in (('h5', 'results'), ('npz', 'all'), ('json', 'plain')):
+        out.append(('linear', [(0, 'misfit'), (0, 'export!io', via, what), (0, 'export', 'dict', 'plain'),
+                               (1, 'gradient'), (0, 'export', via, 'computed'), (2, 'gradient!B'),
+                               (2, 'gradient')]))
+    # failed operations on a copy, then the original and the copy are asked
+    out.append(('linear', [(0, 'gradient'), (0, 'export', 'copy', 'results'), (1, 'jtvec!F', 0),
+                           (1, 'setmodel', 1, 'computed', 'replace'), (1, 'jtvec!B', 1), (1, 'gradient'),
+                           (0, 'jvec!G', 0), (0, 'gradient')]))
+    return out
+
+
+def fault_cases():
+    """The enumerated fault histories as correspondence cases (memory mode), spread round-robin over the
+    problems of their receiver-interpolation class."""
+    lin = [c for c in FAULT_COMBOS if c[2] == 'linear']
+    cub = [c for c in FAULT_COMBOS if c[2] == 'cubic']
+    cases, nl, nc = [], 0, 0
+    for interp, ops in fault_suspects():
+        if interp == 'cubic':
+            case, layout, _ = cub[nc % len(cub)]
+            nc += 1
+        else:
+            case, layout, _ = lin[nl % len(lin)]
+            nl += 1
+        cases.append(dict(case=case, layout=layout, interp=interp, file=False, fault=True,
+                          n=problem(case, layout, interp).n, ops=ops))
+    return cases
+
+
+def gen_fault_history(rng, n, maxlen, cubic, with_r=False):
+    """A random history (as gen_history) in which computing operations carry an armed fault with
+    probability 1/2, clean('keepresults') is frequent (so that forward batches occur inside
+    gradient/jvec/jtvec), and failing to_file calls are interspersed."""
+    ops = []
+    for op in gen_history(rng, n, maxlen):
+        if rng.random() < 0.25:
+            ops.append((op[0], 'clean', 'keepresults'))
+        name = op[1]
+        kinds = {'compute': 'F', 'misfit': 'F', 'get_efield': 'F', 'get_hfield': 'F', 'gradient': 'FBB',
+                 'jvec': 'FG', 'jtvec': 'FBB'}.get(name)
+        if kinds and rng.random() < 0.5:
+            kinds = kinds + ('WW' if cubic and name in ('gradient', 'jtvec') else '')
+            flt = rng.choice(kinds)
+            if with_r and rng.random() < 0.4:
+                flt = 'R%d' % rng.randint(1, 4)
+            op = (op[0], name + '!' + flt) + tuple(op[2:])
+        ops.append(op)
+        if rng.random() < 0.12:
+            ops.append((op[0], 'export!io', rng.choice(['h5', 'npz', 'json']), rng.choice(DW)))
+    return ops
+
+
 def check_synthetic(w, prob, intended, have, op, ob):
     """Reported synthetic data, BY LABEL, after an operation (own bookkeeping, no Coq):
     every present slot is the response of the simulation's intended model; a slot that was
@@ -676,9 +846,9 @@ def check_synthetic(w, prob, intended, have, op, ob):
     updated; after compute/misfit/gradient/jvec/jtvec all slots are present, as in a fresh
     simulation.  Updates have[k] (set of present slots); returns a description or None."""
     names = field_names(prob.n)
-    k, name = op[0], op[1]
+    k, name = op[0], split_fault(op[1])[0]
     new_index = None
-    if name == 'export' and ob[0] == 3:
+    if op[1] == 'export' and ob[0] == 3:
         have.append(set())
         new_index = len(w.sims) - 1
     what = op[2] if name == 'clean' else (op[3] if name == 'setmodel' else None)
@@ -712,7 +882,7 @@ def property_fails(prob, file_mode, ops):
     """Independent oracle.  Run the history; then ask every simulation for
     misfit, gradient, synthetic data and compare with a fresh simulation of
     its current model.  Returns None or a description."""
-    w = World(prob, file_mode)
+    w = World(prob, file_mode, faulty=has_fault(ops))
     intended = [0]          # model version each simulation is supposed to have (own bookkeeping)
     have = [set()]          # slots whose synthetic data each simulation reports (own bookkeeping)
     SYN_REQ = ('the synthetic data a simulation reports are, label by label, those of a fresh simulation; '
@@ -739,9 +909,12 @@ def property_fails(prob, file_mode, ops):
                 bad = check_synthetic(w, prob, intended, have, op, ob)
                 if bad:
                     return {'step': j, 'op': op_text(op), 'observed': bad, 'required': SYN_REQ}
-            if ob[0] == 4:
+            base, flt = split_fault(op[1])
+            injected = ob[0] == 4 and flt is not None and ob[1] == (2 if flt == 'io' else 7)
+            if ob[0] == 4 and not injected:
                 return {'step': j, 'op': op_text(op), 'observed': 'raises ' + w.last_exc,
-                        'required': 'no exception (a fresh simulation performs this operation)'}
+                        'required': 'no exception (a fresh simulation performs this operation)'
+                                    + (' other than the injected one' if flt else '')}
             if ob[0] == 2:
                 return {'step': j, 'op': op_text(op), 'observed': 'misfit is not a number (memoryview)',
                         'required': 'the misfit of a fresh simulation'}
@@ -751,8 +924,8 @@ def property_fails(prob, file_mode, ops):
                         'required': "every solve is handed the simulation's current model; forward solves "
                                     "use tol, back-propagation/jvec solves tol_gradient (as a fresh "
                                     "simulation does)"}
-            name = op[1]
-            if op[0] >= len(w.sims):
+            name = base
+            if op[0] >= len(w.sims) or injected:
                 continue
             m = w.enc_sim(w.sims[op[0]])[0]
             if name == 'misfit' and ob[1:4] != [3, m, 0]:
@@ -783,7 +956,11 @@ def property_fails(prob, file_mode, ops):
                             'observed': 'misfit is not a number (memoryview)',
                             'required': 'the misfit of a fresh simulation'}
                 if q == 'misfit' and ob[1:4] != [3, m, 0] or q == 'gradient' and ob[1:4] != [4, m, 0]:
-                    return {'step': len(ops), 'op': f'query {q}@{k}', 'observed': f'tag {ob[1:4]}',
+                    seen_as = f'tag {ob[1:4]}'
+                    if q == 'gradient' and ob[1] == 5:
+                        seen_as = (f'gradient returns J^T w of model {ob[2]} for the vector w = W[{ob[3]}] of an '
+                                   f'earlier jtvec (tag {ob[1:4]}), not the gradient of the misfit')
+                    return {'step': len(ops), 'op': f'query {q}@{k}', 'observed': seen_as,
                             'required': f'{q} of a fresh simulation with model {m}'}
                 if q == 'compute':
                     e = w.enc_sim(w.sims[k])
@@ -895,7 +1072,14 @@ def active_quirks():
 def coq_text(cases, quirks):
     qt = "(mkQ %s %s %s)" % tuple(V.coq_bool(quirks[k]) for k in ('q_jtvec', 'q_misfit', 'q_keep'))
     lines = [K.CASE_HEADER, "From V Require Import Model.SimMachine."]
+    if any(c.get('fault') for c in cases):
+        lines.append("From V Require Import Model.SimFault.")
     for c in cases:
+        if c.get('fault'):       # history with armed faults: Model/SimFault.v, jtvec restores in `finally`
+            ops = '[' + '; '.join(coq_op(o, True) for o in c['ops']) + ']'
+            lines.append(f"Eval vm_compute in frun_dump true {qt} (init_world {c['n']} "
+                         f"{V.coq_bool(c['file'])} 0) {ops}.")
+            continue
         ops = '[' + '; '.join(coq_op(o) for o in c['ops']) + ']'
         lines.append(f"Eval vm_compute in run_dump {qt} (init_world {c['n']} {V.coq_bool(c['file'])} 0) {ops}.")
     return '\n'.join(lines) + '\n'
@@ -911,8 +1095,8 @@ def parse_dump(ans):
 
 
 def run_case_impl(c):
-    prob = problem(c['case'], c['layout'])
-    w = World(prob, c['file'])
+    prob = problem(c['case'], c['layout'], c.get('interp', 'linear'))
+    w = World(prob, c['file'], faulty=bool(c.get('fault')))
     steps = []
     try:
         for op in c['ops']:
@@ -951,6 +1135,8 @@ def check_cases(cases, quirks, prefix='c12_h'):
                 hist[c['ops'][j][1]] = hist.get(c['ops'][j][1], 0) + 1
                 if ob[0] == 4:
                     hist['(raises)'] = hist.get('(raises)', 0) + 1
+                    if '!' in c['ops'][j][1]:
+                        hist['(armed fault fired)'] = hist.get('(armed fault fired)', 0) + 1
                 if len(ob) > 4 or len(enc) > 1:
                     nontrivial = True
                 d = None
@@ -973,13 +1159,14 @@ def check_cases(cases, quirks, prefix='c12_h'):
                          'model': 'independent'}
                 if d:
                     d['case'] = dict(case=c['case'], layout=c['layout'], file_dir=c['file'],
+                                     interp=c.get('interp', 'linear'),
                                      history=[op_text(o) for o in c['ops'][:j + 1]], step=j)
                     d['_ops'] = c['ops'][:j + 1]
-                    d['_c'] = (c['case'], c['layout'], c['file'])
+                    d['_c'] = (c['case'], c['layout'], c['file'], c.get('interp', 'linear'))
                     dis.append(d)
                     break
             if nontrivial:
-                distinct.add((c['case'], c['file'], tuple(c['ops'])))
+                distinct.add((c['case'], c['file'], c.get('interp', 'linear'), tuple(c['ops'])))
     return dis, nsteps, hist, distinct
 
 
@@ -1003,12 +1190,28 @@ def correspondence(ctx):
         prob = problem(case, layout)
         cases.append(dict(case=case, layout=layout, file=fm, n=prob.n,
                           ops=gen_history(rng, prob.n, maxlen)))
+    # fault paths (Model/SimFault.v): enumerated (operation, fault, prefix) histories + random ones
+    nfault = 0
+    if not any(quirks.values()):
+        fc = fault_cases()
+        for t in range(120 if ctx.thorough else 14):
+            case, layout, interp = FAULT_COMBOS[t % len(FAULT_COMBOS)]
+            prob = problem(case, layout, interp)
+            fc.append(dict(case=case, layout=layout, interp=interp, file=False, fault=True, n=prob.n,
+                           ops=gen_fault_history(rng, prob.n, 8 if ctx.thorough else 6, interp == 'cubic')))
+        nfault = len(fc)
+        cases += fc
+    else:
+        ctx.notes.append("fault-path stream skipped: a listed quirk of the unrepaired code is active")
     dis, nsteps, hist, distinct = check_cases(cases, quirks)
     ctx.c12_dis = [dict(d) for d in dis]
     for d in dis:
         d.pop('_ops', None)
         d.pop('_c', None)
     hist['file_dir histories'] = sum(1 for c in cases if c['file'])
+    hist['fault-path histories (operations with an armed fault, Model/SimFault.v)'] = nfault
+    hist['armed faults by class'] = {
+        f: sum(1 for c in cases for o in c['ops'] if split_fault(o[1])[1] == f) for f in FAULT_COQ}
     hist["gridding='input' histories (computational grid != model grid)"] = sum(
         1 for c in cases if c['layout'] >= 2)
     hist["file round trips (h5/npz/json) on gridding='input' problems"] = sum(
@@ -1024,7 +1227,11 @@ def correspondence(ctx):
     return {
         'evaluations': nsteps,
         'distinct_nontrivial': len(distinct),
-        'rule': f"{len(cases)} histories (4 fixed witnesses + 4 model-update suspects on each of 4 problems + "
+        'rule': f"{len(cases)} histories, of which {nfault} FAULT-PATH histories (every (operation, fault "
+                "class F/B/G/W/io) x every prefix that decides where the fault fires, + random ones; the "
+                "injected exception is caught and the history continues; memory mode; problems incl. "
+                "receiver_interpolation='cubic' for warnings-as-errors), the others: "
+                f"(4 fixed witnesses + 4 model-update suspects on each of 4 problems + "
                 f"random, length 1..{maxlen}, ops weighted, up to 3 simulations per world, 1/3 with file_dir), "
                 "cycling over isotropic 2src x 1freq and VTI 1src x 2freq with gridding='same', isotropic "
                 "1src x 2freq and VTI 2src x 1freq with gridding='input' (8x4x4 computational grid != 4^3 "
@@ -1059,6 +1266,9 @@ def explained_by_known(hits):
         if not involved:
             out.append(h)
             continue
+        if has_fault(ops):          # the fault stream only runs on the repaired code: never "known"
+            out.append(h)
+            continue
         cand.append((h, dict(case=h['case'], layout=h['layout'], file=h['file_dir'],
                              n=problem(h['case'], h['layout']).n, ops=ops)))
     if cand:
@@ -1070,6 +1280,12 @@ def explained_by_known(hits):
 
 
 # ------------------------------------------------------------------ searcher
+def fault_note(hit):
+    if has_fault([tuple(o) for o in hit['history']]):
+        hit['fault_legend'] = FAULT_LEGEND
+    return hit
+
+
 def search(ctx, broken):
     hits = []
     seen = set()
@@ -1103,12 +1319,31 @@ def search(ctx, broken):
                                  'history': [list(o) for o in small],
                                  'history_text': [op_text(o) for o in small],
                                  'failure': property_fails(prob, j == 1, small)})
+    # the enumerated fault-path histories, with the independent oracle
+    if broken or ctx.thorough:
+        for c in fault_cases():
+            if len(hits) >= 6:
+                break
+            prob = problem(c['case'], c['layout'], c['interp'])
+            if not property_fails(prob, False, c['ops']):
+                continue
+            small = shrink(prob, False, c['ops'])
+            sig = signature(small, False) + f" [{c['case']}, gridding={prob.gridding}" + (
+                f", receiver_interpolation={c['interp']}]" if c['interp'] != 'linear' else "]")
+            if sig not in seen:
+                seen.add(sig)
+                hits.append(fault_note({'signature': sig, 'case': c['case'], 'layout': c['layout'],
+                                        'file_dir': False, 'interp': c['interp'], 'gridding': prob.gridding,
+                                        'history': [list(o) for o in small],
+                                        'history_text': [op_text(o) for o in small],
+                                        'failure': property_fails(prob, False, small)}))
     # minimise the histories on which model and implementation disagreed
     for d in getattr(ctx, 'c12_dis', [])[:6]:
         if '_ops' not in d:
             continue
-        case, layout, fm = d['_c']
-        prob = problem(case, layout)
+        case, layout, fm, *rest = d['_c']
+        interp = rest[0] if rest else 'linear'
+        prob = problem(case, layout, interp)
         base = list(d['_ops'])
         f = property_fails(prob, fm, base)
         if f is None:
@@ -1123,14 +1358,15 @@ def search(ctx, broken):
         if f is None:
             continue
         small = shrink(prob, fm, base)
-        sig = signature(small, fm) + f" [{case}, gridding={prob.gridding}]"
+        sig = signature(small, fm) + f" [{case}, gridding={prob.gridding}" + (
+            f", receiver_interpolation={interp}]" if interp != 'linear' else "]")
         if sig in seen:
             continue
         seen.add(sig)
-        hits.append({'signature': sig, 'case': case, 'layout': layout, 'file_dir': fm,
-                     'gridding': prob.gridding,
-                     'history': [list(o) for o in small], 'history_text': [op_text(o) for o in small],
-                     'failure': property_fails(prob, fm, small)})
+        hits.append(fault_note({'signature': sig, 'case': case, 'layout': layout, 'file_dir': fm,
+                                'interp': interp, 'gridding': prob.gridding,
+                                'history': [list(o) for o in small], 'history_text': [op_text(o) for o in small],
+                                'failure': property_fails(prob, fm, small)}))
     if ctx.thorough or not hits:
         # random search with the independent oracle only
         n = 60 if ctx.thorough else 25
@@ -1151,6 +1387,25 @@ def search(ctx, broken):
                                  'failure': property_fails(prob, fm, small)})
                 if len(hits) >= 6:
                     break
+        # random fault-path histories (incl. fields.get_receiver raising on its k-th call, which the Coq
+        # model does not describe), independent oracle only
+        for t in range(40 if ctx.thorough else 15):
+            if len(hits) >= 6:
+                break
+            case, layout, interp = FAULT_COMBOS[t % len(FAULT_COMBOS)]
+            prob = problem(case, layout, interp)
+            ops = gen_fault_history(ctx.rng, prob.n, 6, interp == 'cubic', with_r=True)
+            if property_fails(prob, False, ops):
+                small = shrink(prob, False, ops)
+                sig = signature(small, False) + f" [{case}, gridding={prob.gridding}" + (
+                    f", receiver_interpolation={interp}]" if interp != 'linear' else "]")
+                if sig not in seen:
+                    seen.add(sig)
+                    hits.append(fault_note({'signature': sig, 'case': case, 'layout': layout, 'file_dir': False,
+                                            'interp': interp, 'gridding': prob.gridding,
+                                            'history': [list(o) for o in small],
+                                            'history_text': [op_text(o) for o in small],
+                                            'failure': property_fails(prob, False, small)}))
     # hits explained by a listed known finding (same root cause) are reported by known_checks
     out = explained_by_known(hits)
     ctx.notes.append(f"searcher: {len(hits)} failing histories, {len(out)} not listed as known")
@@ -1161,7 +1416,7 @@ def replay(ctx, payload):
     fi = payload.get('failing_input')
     if not fi or 'history' not in fi:
         return False
-    prob = problem(fi.get('case', 'isotropic'), fi.get('layout', 0))
+    prob = problem(fi.get('case', 'isotropic'), fi.get('layout', 0), fi.get('interp', 'linear'))
     ops = [tuple(o) for o in fi['history']]
     f = property_fails(prob, bool(fi.get('file_dir')), ops)
     if f:
